@@ -437,7 +437,7 @@ def run(driver, deviations=None, budgets=None, debug=False, **opts):
                 x.baton.release()
             except RuntimeError:
                 pass
-            if not x.dead.acquire(True, 120):  # real seconds; generous, the machine may be heavily loaded
+            if not x.dead.acquire(True, 30):  # real seconds; generous, the machine may be heavily loaded
                 leaked.append(x.name)
         if leaked:
             raise HarnessError(f"threads did not terminate at teardown: {leaked}")
